@@ -3,7 +3,8 @@
     Independence of the two worlds is true by construction in a functional
     model; it is carried by the correspondence check (pointer-identity dump,
     lock-step continuation), not by a theorem. *)
-From Brood Require Import Base World Multi Spec BaseFacts Inv CloneEq.
+From Coq Require Import Permutation.
+From Brood Require Import Base World Multi Spec BaseFacts Inv CloneEq ClearOrderFacts.
 
 (** clone() never reaches an unchecked failure and yields the same world. *)
 Theorem C10_clone : forall w, Inv w ->
@@ -38,3 +39,19 @@ Check (C10_clone_from : forall dst src, Inv dst -> Inv src -> w_n dst = w_n src 
     w_slots w' = w_slots src /\ w_free w' = w_free src /\ w_len w' = w_len src /\
     w_res w' = w_res src /\ feq (absf w') (absf src)).
 Print Assumptions C10_clone_from.
+
+(** "Both keep satisfying every other property", among them C06's identical behaviour: a clone given the same
+    operation answers and ends up exactly as the original does — also for [clear], whose only input that is not
+    part of the operation, the order of the archetype table, no longer matters (finding F6 repaired). *)
+Theorem C10_clone_behaves_identically : forall w w' evs o, clone_world w = Some (w', evs) -> step w' o = step w o.
+Proof. intros w w' evs o E. rewrite (clone_world_same _ _ _ E). reflexivity. Qed.
+
+Theorem C10_clone_clears_identically : forall w w' evs v1 v2, clone_world w = Some (w', evs) -> Permutation v1 v2 ->
+  (forall sh, In sh v1 -> length sh = w_n w) -> step w' (Clear v2) = step w (Clear v1).
+Proof.
+  intros w w' evs v1 v2 E P HL. rewrite (clone_world_same _ _ _ E).
+  symmetry. exact (clear_independent_of_table_order w v1 v2 P HL).
+Qed.
+Check (C10_clone_clears_identically : forall w w' evs v1 v2, clone_world w = Some (w', evs) -> Permutation v1 v2 ->
+  (forall sh, In sh v1 -> length sh = w_n w) -> step w' (Clear v2) = step w (Clear v1)).
+Print Assumptions C10_clone_clears_identically.
